@@ -22,12 +22,15 @@ logger = logging.getLogger('spyne')
 
 from time import time
 from copy import copy
+from threading import Lock
 from collections import deque, defaultdict
 
 from spyne import const
 
 
 _LAST_GC_RUN = 0.0
+
+_protocol_bind_lock = Lock()
 
 
 class AuxMethodContext(object):
@@ -407,8 +410,14 @@ class MethodContext(object):
 
     def set_out_protocol(self, what):
         self._out_protocol = what
+        self._bind_out_protocol()
+
+    def _bind_out_protocol(self):
+        # the protocol object may be shared by concurrent requests.
         if self._out_protocol.app is None:
-            self._out_protocol.set_app(self.app)
+            with _protocol_bind_lock:
+                if self._out_protocol.app is None:
+                    self._out_protocol.set_app(self.app)
 
     def get_out_protocol(self):
         return self._out_protocol
